@@ -477,6 +477,24 @@ impl Runner {
     pub fn generate_policy(&mut self, profile: &str, seed: u64, count: u64) {
         let p = gen::profile(profile);
         let mut master = Rng::new(seed ^ 0x9011c4);
+        // directed: fresh keys whose records fill the limit exactly (nothing may be evicted), one byte less, one byte more
+        for (di, delta) in [0i64, -1, 1, 0].iter().enumerate() {
+            let mut rng = master.fork();
+            let lens: Vec<u64> = (0..rng.range(2, 5)).map(|_| rng.range(1, 90)).collect();
+            let total: u64 = lens.iter().map(|l| 24 + l).sum();
+            let mem = (total as i64 - delta) as u64;
+            self.exec(&format!("newp 4096 {}", mem));
+            for (i, l) in lens.iter().enumerate() {
+                let key = format!("fill{}", i).into_bytes();
+                let opc = if di == 3 && i % 2 == 1 { wire::op::ADD } else { wire::op::SET };
+                self.exec(&format!("req {}", hex(&wire::set_like(opc, &key, &vec![b'f'; *l as usize], 0, 0, 0, i as u32).bytes())));
+                self.exec("dump");
+            }
+            for i in 0..lens.len() {
+                self.exec(&format!("req {}", hex(&wire::key_only(wire::op::GET, format!("fill{}", i).as_bytes(), 0, 100 + i as u32).bytes())));
+                self.exec("dump");
+            }
+        }
         for _ in 0..count {
             let mut rng = master.fork();
             let mem: u64 = if profile == "C14" || profile == "C02" { *rng.pick(&[10u64, 40, 60, 100, 100, 150, 250, 400, 1000]) } else { *rng.pick(&[2000u64, 5000, 20000]) };
